@@ -4,6 +4,7 @@
 #![allow(dead_code)]
 mod dynsite;
 mod gen;
+mod heap;
 mod hosts;
 mod program;
 mod spec;
@@ -54,6 +55,9 @@ fn run_guarded(suite: &dyn suites::Suite, lines: &[String]) -> Outcome {
         }
     }
 }
+
+#[global_allocator]
+static ALLOC: heap::Counting = heap::Counting;
 
 fn main() {
     let args: Vec<String> = std::env::args().collect();
